@@ -238,8 +238,10 @@ Section Main.
     destruct (Nat.ltb 16 (length inpBI)) eqn:E1; [reflexivity|]. cbn [orb].
     rewrite gen_utils_CheckBigIntArrayInField_eq.
     destruct (Utils.CheckBigIntArrayInField Q inpBI) eqn:EA; cbn [negb]; [|reflexivity].
-    rewrite Z.gtb_ltb.
-    destruct ((nOuts <? 1) || (Z.of_nat t <? nOuts)) eqn:EO; [reflexivity|].
+    (* the nOuts guard, whatever its boolean spelling *)
+    rewrite ?Z.gtb_ltb, ?Z.geb_leb, ?Z.leb_antisym.
+    destruct (nOuts <? 1) eqn:EO1; destruct (Z.of_nat t <? nOuts) eqn:EO2;
+      cbn [orb andb negb]; try reflexivity.
     apply Nat.eqb_neq in E0. apply Nat.ltb_ge in E1.
     destruct (nth_error tables (t - 2)) as [tb|] eqn:En;
       [|exfalso; apply nth_error_None in En; lia].
@@ -301,7 +303,7 @@ Section Main.
     rewrite (gen_poseidon_mix_eq (sbox_all (sbox5 Q) s5) t M) by (rewrite sbox_all_length; exact Hl5).
     (* the output loop *)
     apply out_loop. rewrite mix_length.
-    apply orb_false_elim in EO. destruct EO as [_ EO2]. apply Z.ltb_ge in EO2. lia.
+    apply Z.ltb_ge in EO2. lia.
   Qed.
 
   Lemma gen_poseidon_HashWithState_eq : forall inpBI initState,
